@@ -1086,6 +1086,17 @@ def run_block_prm(key):
     return acc.done({"case": key, "configs": acc.res["n"]})
 
 
+EDGE_VALUES = [("gbm_mobility", 0), ("gbs_threshold", 0.0), ("nucleation_efficiency", 0.0), ("disl_activation_volume", 0.0)]
+
+
+def run_block_edge(key):
+    acc = Acc(key)
+    val = dict((n, v) for n, v in EDGE_VALUES)[key["name"]]
+    for ph in PHASES:
+        run_config(acc, {"mode": key["mode"], "ph": ph, "fab": "A", "omit": [], "edits": [("parameters", key["name"], val)]})
+    return acc.done({"case": key, "configs": acc.res["n"]})
+
+
 def run_block_inputs(key):
     acc = Acc(key)
     for ph in PHASES:
@@ -1384,6 +1395,10 @@ def gen_cases(tier, seed):
     for mode, axis, letters in (("velgrad", "vg", VG_LETTERS), ("paths", "pf", PATH_LETTERS), ("mesh", "mesh", MESH_LETTERS)):
         for letter in letters:
             keys.append({"part": "config", "block": "inputs", "mode": mode, "axis": axis, "letter": letter})
+    # declared edge values: legal falsy values must be kept, not replaced by the default
+    for mode in MODES:
+        for name, val in EDGE_VALUES:
+            keys.append({"part": "config", "block": "edge", "mode": mode, "name": name, "val": repr(val)})
     keys.append({"part": "records", "cls": "DefaultParams"})
     for cname in preset_classes():
         keys.append({"part": "records", "cls": cname, "preset": 1})
@@ -1409,6 +1424,8 @@ def run_case(key):
         return run_preset(key) if key.get("preset") else run_defaults(key)
     if key["part"] == "fault":
         return run_fault(key)
+    if key["block"] == "edge":
+        return run_block_edge(key)
     if key["block"] == "inputs":
         return run_block_inputs(key)
     if key["block"] == "out":
